@@ -116,6 +116,10 @@ def st_case(draw):
         fam = draw(st.sampled_from(FAMILIES))
         wave = draw(st.sampled_from([n for n, _ in names[fam]]))
     shape = draw(A.shapes(1, 3, 1, 9, 300))
+    if draw(st.sampled_from([False] * 14 + [True])):
+        # one LONG axis (far beyond the small sizes used elsewhere), optionally next to a short one
+        shape = [draw(st.integers(65, 400))] + ([draw(st.integers(1, 3))] if draw(st.booleans()) else [])
+        shape = list(draw(st.permutations(shape)))
     axes = draw(A.axes_subset(len(shape)))
     level = draw(st.sampled_from([None, 1, 2, 3]))
     # keep the coefficient array materialisable: lower the order inside the same family (by construction, no assume)
